@@ -249,4 +249,24 @@ Section S3.
     | [] => []
     | (c, k) :: h' => call_states c k st ++ all_states h' (fst (step c k st))
     end.
+
+  (** ---- specification vocabulary (used by the C15 / C07 statements) ---- *)
+  (** both objects of the recording can be fetched through cassette [c] *)
+  Definition fetchable (c : cfg) (id : str) (b : bucket) : Prop :=
+    (exists f, s3_get c id b = Ans f) /\ (exists m, s3_get_meta c id b = Ans m).
+  (** every recording that lookup can discover through [c] (lookup lists the metadata objects under
+      the cassette's metadata prefix, :237-245) is completely fetchable *)
+  Definition discoverable_complete (c : cfg) (b : bucket) : Prop :=
+    forall id, b_has (meta_key (np c) id) b = true -> fetchable c id b.
 End S3.
+
+(** the keys that hold recordings of cassette [c]: .../<prefix>/full/* and .../<prefix>/metadata/* *)
+Definition is_recording_key (c : cfg) (k : str) : bool :=
+  prefixb (full_key (np c) []) k || prefixb (meta_key (np c) []) k.
+(** neither normalised prefix is a (string = path, thanks to the trailing slash) prefix of the other *)
+Definition independent (c c' : cfg) : Prop :=
+  prefixb (np c) (np c') = false /\ prefixb (np c') (np c) = false.
+
+(** recordings in the serializer's faithful domain *)
+Definition rec_wf (r : recording) : bool :=
+  str_ok (r_id r) && wf (VDict (r_data r)) && wf (VDict (r_meta r)).
